@@ -203,6 +203,24 @@ def replay_range_soundness(items):
                             {"short": {"expression": e, "depth": d, "matches": paths[k], "components": k},
                              "battery": len(live)}))
                 break
+    # expressions whose components begin or end inside a group (the termination table)
+    OPEN = [("/a<b/:2>c", ["/ab/b/c"]), ("a<b/:2>c", ["ab/b/c"]), ("/x<a/:1,2>z", ["/xa/z", "/xa/a/z"]),
+            ("</a:2></a:1,>", ["/a/a/a", "/a/a/a/a"]), ("/a{b/,c/d/}e", ["/ab/e", "/ac/d/e"]),
+            ("**/src{/main,/test/unit}", ["src/main", "x/src/test/unit"]), ("{a,a/b}/{c,c/d}", ["a/c", "a/b/c/d"]),
+            ("x{/a,/a/b}y", ["x/ay", "x/a/by"]), ("</a:1,2>b", ["/ab", "/a/ab"]), ("a/{b,c/d}", ["a/b", "a/c/d"])]
+    rows = probe([{"op": "glob", "e": e} for e, _ in OPEN])
+    ms = probe([{"op": "match", "target": {"glob": e}, "paths": ps} for e, ps in OPEN])
+    for (e, ps), r, m in zip(OPEN, rows, ms):
+        if not r or not r.get("ok") or not m.get("ok"):
+            continue
+        d = r["depth"]
+        lo, hi = (d["inv"], d["inv"]) if "inv" in d else ((d["lo"] or 0), d["hi"])
+        for p, res in zip(ps, m["results"]):
+            k = len([c for c in p.split("/") if c])
+            if res["m"] and not (lo <= k and (hi is None or k <= hi)):
+                out.append(({"depth-outside-reported-bounds"},
+                            {"short": {"expression": e, "depth": d, "matches": p, "components": k}}))
+                break
     return out
 
 
@@ -306,6 +324,8 @@ def _walk_battery():
         cases.append(("b", glob, "plain"))
     for glob in ["../c/**", "../c/*", "../c/*/*", "../b/p/*"]:
         cases.append(("b", glob, "parent"))
+    for glob in ["./p/*", "./p/**", "./p/1/*", "./q/1", "./*"]:
+        cases.append(("b", glob, "dot"))
     for glob in ["{ROOT}/b/**", "{ROOT}/b/*", "{ROOT}/b/*/*", "{ROOT}/b/p/*/*", "{ROOT}/b/p/**/x", "{ROOT}/c/1/*"]:
         cases.append(("c", glob, "rooted"))
     rows = probe([{"op": "walk", "tree": WALK_TREE, "base": b, "glob": g, "stack": []} for b, g, _ in cases])
@@ -328,6 +348,10 @@ def _walk_battery():
                     cands[e] = ".." if e == "" else "../" + base
                 else:
                     cands[e] = "../" + e
+            elif kind == "dot":
+                # the glob spells the current directory explicitly: ./x
+                if e.startswith(base + "/"):
+                    cands[e] = "./" + e[len(base) + 1:]
             else:
                 if e == base:
                     cands[e] = ""
@@ -359,7 +383,7 @@ def _walk_results(kinds):
         if b["kind"] not in kinds:
             continue
         role = {"plain": "walk-mismatch", "parent": "parent-prefix-walk-mismatch",
-                "rooted": "rooted-walk-mismatch"}[b["kind"]]
+                "rooted": "rooted-walk-mismatch", "dot": "dot-prefix-walk-mismatch"}[b["kind"]]
         out.append(({role}, {"short": dict(b, scenario="real walk of the glob vs. real is_match on every entry of the tree"),
                              "battery": n}))
     return out
@@ -543,6 +567,36 @@ def _observe_results(kinds):
     return out
 
 
+def _negation_observe_results():
+    """A downstream filter_entry logs what it observes behind a negation: nothing beneath a directory
+    that matches an exhaustive alternative of the negation may be observed -- also when the directory
+    matches a non-exhaustive alternative as well, whatever the order of the alternatives."""
+    from core import probe
+    cases = [(["q/dd/**", "**/dd"], "q/dd/"), (["**/dd", "q/dd/**"], "q/dd/"), (["q/dd/**"], "q/dd/"),
+             (["pp/**", "?p"], "pp/"), (["*p", "w", "pp/**"], "pp/"), (["**/dd/**", "**/d?", "**/f"], "q/dd/")]
+    rows = probe([{"op": "walk", "tree": OBS_TREE, "base": "b", "glob": None,
+                   "stack": [{"not": {"pats": pats, "mode": "any_text"}}, {"filter": {"tree": [], "file": []}}]}
+                  for pats, _ in cases])
+    out = []
+    for (pats, forbidden), row in zip(cases, rows):
+        if not row or not row.get("ok"):
+            out.append(({"negation-tree-was-read"}, {"short": {"negation": pats, "error": str(row)[:200]}}))
+            continue
+        leaked = sorted(o for o in row["observed"][0] if o.startswith(forbidden))
+        if leaked:
+            out.append(({"negation-tree-was-read"},
+                        {"short": {"negation": pats, "observed_beneath_discarded_directory": leaked,
+                                   "scenario": "real walk with not(any(patterns)) and a logging filter_entry downstream"}}))
+    return out
+
+
+_old_negation_walks = replay_negation_walks
+
+
+def replay_negation_walks(items):
+    return _old_negation_walks(items) + _negation_observe_results()
+
+
 _old_closure, _old_rooted, _old_parent = replay_closure, replay_closure_rooted, replay_closure_parent
 
 
@@ -556,6 +610,10 @@ def replay_closure_rooted(items):
 
 def replay_closure_parent(items):
     return _old_parent(items) + _observe_results({"parent", "plain"})
+
+
+def replay_closure_dot(items):
+    return _walk_results({"dot"}) or _walk_results({"plain"})
 
 
 # ---------------------------------------------------------------------------------------------
